@@ -4,10 +4,13 @@ life cycle of a job).  Tie: (a) exhaustive product of snapshot field shapes thro
 the real Application.do_render_status, (b) random job histories on a real qs.jobs.workq behind QPlugin,
 (c) exhaustive pass over all code points for the Unicode facts the theorems assume.
 Search: the property's own oracle on the real responses given the live job objects."""
+import concurrent.futures
 import itertools
 import json
 import os
+import re
 import subprocess
+import unicodedata
 
 from vt import core
 from vt.gen import c19_writers
@@ -68,6 +71,14 @@ def gen_snap_cases(writers, rng, tier):
                       "render": {"info": {}, "done": True, "error": rng.choice([None, ""]),
                                  "result": {"url": "http://h/u", "size": 7, "suggested_filename": name}},
                       "makezip": None})
+    # every snapshot case is a different collection: the cases are independent inputs of one process, so nothing the
+    # status command may remember about one collection can leak into the verdict on another (remembering ACROSS polls
+    # of one collection is what the histories of part (b) are for)
+    for i, c in enumerate(cases):
+        cid = "%016x" % (0xC190000000000000 + i)
+        if "decoys" in c:
+            c["decoys"] = {k.replace(COLL, cid): v for k, v in c["decoys"].items()}
+        c["c"] = cid
     return cases
 
 
@@ -76,12 +87,31 @@ POOL = [" ", " ", ";", ":", "\"", "'", ",", "-", ".", "/", "\\", "%", "a", "Z", 
         "=", "*", "\u2028", "\u1680", "\u00a8", "\u2474", "\u33c2"]
 
 
+_SPECIAL = []
+
+
+def special_cps():
+    """All printable code points whose compatibility decomposition (NFKD) contains an ASCII character that is not a
+    letter or digit -- the separator class of the header and everything else that could matter in it -- or a control
+    character.  Computed from unicodedata at run time (373 code points with Unicode 15), never listed by hand."""
+    if not _SPECIAL:
+        for c in range(0x110000):
+            if c in cc.CONTROL or 0xD800 <= c <= 0xDFFF:
+                continue
+            d = unicodedata.normalize("NFKD", chr(c))
+            if any((ord(x) < 128 and not x.isalnum()) or ord(x) in cc.CONTROL for x in d):
+                _SPECIAL.append(c)
+    return _SPECIAL
+
+
 def rand_name(rng):
     k = rng.choice([0, 1, 2, 3, 5, 8, 13])
     out = []
     for _ in range(k):
         r = rng.random()
-        if r < 0.6:
+        if r < 0.2:
+            out.append(chr(rng.choice(special_cps())))
+        elif r < 0.6:
             out.append(rng.choice(POOL))
         elif r < 0.8:
             out.append(chr(rng.randrange(32, 127)))
@@ -250,10 +280,67 @@ def gen_history(rng, hid, writers):
             ops.append(["dropdead", rng.choice([0, 1, 9, 11, 20, 3599, 3700])])
         elif r < 0.95:
             ops.append(["push", jid, "makezip" if jid.endswith("makezip") else "render", rng.choice([None, 5, 60]), rng.choice([None, 3, 30])])
-        elif r < 0.975:
+        elif r < 0.97:
             ops.append(["dropmark", jid])
-        else:
+        elif r < 0.985:
             ops.append(["wait", jid])
+        else:
+            ops.append(["restart"])
+    return {"id": hid, "collections": colls, "writers": writers, "ops": ops}
+
+
+def gen_lifecycle_history(rng, hid, writers):
+    """Several render rounds of ONE collection (mostly one writer), each walking the two jobs through their life:
+    requested -> fetch pulled/finished (or failed) -> render pulled, progress info, finished with a download / failed /
+    killed / timed out / still running -> then the jobs leave the queue (watchdog: deadline stamped, dropped after the
+    time-to-live; queue server restarted; dropjobs+waitjobs) or stay -> requested again.  The status of every
+    (collection, writer) is polled after every single op, so every phase is observed repeatedly by the same process."""
+    colls = ["c0c0c0c0c0c0c0c0", "0123456789abcdef"]
+    c = colls[0]
+    w = rng.choice(writers[:3])
+    infos = [{"status": "fetching"}, {"status": "rendering", "progress": rng.randrange(100)}, {"article": "A\u00e4", "progress": 3},
+             {"status": "layouting"}]
+    ops = []
+    mz = "%s:makezip" % c
+    for _ in range(rng.choice([2, 2, 3, 4])):
+        if rng.random() < 0.2:
+            w = rng.choice(writers)
+        rj = "%s:render-%s" % (c, w)
+        ops.append(["render", c, w])
+        if rng.random() < 0.85:
+            ops.append(["pull", "makezip"])
+            if rng.random() < 0.4:
+                ops.append(["setinfo", mz, rng.choice(infos)])
+            if rng.random() < 0.85:
+                ops.append(["finish", mz, rng.choice([None, {}]), None])
+            elif rng.random() < 0.5:
+                ops.append(["finish", mz, None, "fetch failed"])
+        if rng.random() < 0.9:
+            ops.append(["pull", "render"])
+            if rng.random() < 0.6:
+                ops.append(["setinfo", rj, rng.choice(infos)])
+            e = rng.random()
+            if e < 0.55:
+                res = {"url": "http://h/%s/%d" % (w, len(ops)), "size": rng.randrange(1, 10 ** 6)}
+                if rng.random() < 0.7:
+                    res["suggested_filename"] = rand_name(rng)
+                ops.append(["finish", rj, res, rng.choice([None, None, ""])])
+            elif e < 0.75:
+                ops.append(["finish", rj, rng.choice([None, {"url": "http://h/partial", "size": 1}]), rng.choice(["boom", "RuntimeError: x", {"code": 3}])])
+            elif e < 0.85:
+                ops.append(["kill", rj])
+            elif e < 0.93:
+                ops.append(["tick", 1300])
+        q = rng.random()
+        if q < 0.55:
+            ops.append(["dropdead", rng.choice([0, 1, 9])])
+            ops.append(["dropdead", rng.choice([11, 3599, 3601, 3700, 7200])])
+        elif q < 0.7:
+            ops.append(["restart"])
+        elif q < 0.8:
+            ops += [["dropmark", rj], ["wait", rj]]
+        elif q < 0.88:
+            ops.append(["kill", rj])
     return {"id": hid, "collections": colls, "writers": writers, "ops": ops}
 
 
@@ -269,6 +356,8 @@ def enc_event(e):
 
 
 def enc_op(a):
+    if a[0] == "R":                 # queue restarted: the model's store is empty again
+        return "RESET"
     if a[0] == "J":
         return "OP J %d %s %s" % (a[1], cc.enc_str(a[2]), enc_event(a[3]))
     return "OP %s %d" % (a[0], a[1])
@@ -309,52 +398,91 @@ def check(run):
 
     def gen():
         gen_out["writers"] = generate(src)
-    run.check_proofs("C19", gen=gen)
-    if "writers" not in gen_out:
-        return
-    wt = gen_out["writers"]
-    writers = [w[0] for w in wt]
-    writers_tbl = {w[0]: (w[1], w[2]) for w in wt}
-    exe = build()
-    model = Model(exe)
+    proofs_ok = run.check_proofs("C19", gen=gen)
+    model = None
+    if "writers" in gen_out:
+        wt = gen_out["writers"]
+        writers = [w[0] for w in wt]
+        writers_tbl = {w[0]: (w[1], w[2]) for w in wt}
+        try:
+            model = Model(build())
+        except Exception as e:     # the model does not build: the verdict is already fail-closed; keep searching on the real code
+            if proofs_ok:
+                raise
+            run.notes["model"] = "extracted model not available (%s): monitor-only run" % (str(e)[:200],)
+    else:
+        # The translator refused the changed source.  The verdict stays fail-closed (broken obligation above), but the
+        # search for a concrete failing input does not need the model: run the property's oracle on the real code with
+        # the writer table the running code itself reports.
+        rc, out = core.run_impl("vt.harness.c19_impl", ["writers"], src=src, timeout=300)
+        js = [x for x in out.splitlines() if x.startswith("{")]
+        if rc != 0 or not js:
+            raise RuntimeError("c19_impl writers failed rc=%s: %s" % (rc, out[-600:]))
+        rt = json.loads(js[-1])
+        writers = sorted(rt)
+        writers_tbl = {k: (v[0], v[1]) for k, v in rt.items()}
+        run.notes["model"] = "translator failed: monitor-only run (no model comparison)"
     try:
         _check(run, src, model, writers, writers_tbl)
     finally:
-        model.close()
+        if model is not None:
+            model.close()
+
+
+class Sink:
+    """Collects what the oracle reports on the batch run; settled (re-run alone, minimised) before it reaches run.hit."""
+
+    def __init__(self):
+        self.items = []
+
+    def hit(self, fingerprint, what, replay):
+        self.items.append({"fingerprint": fingerprint, "what": what, "replay": replay})
+
+
+def kind_of(fingerprint):
+    """The oracle's clause without the place it fired at."""
+    return re.split(r":(?:snap:|hist:|replay|U\+)", fingerprint)[0]
 
 
 def _check(run, src, model, writers, writers_tbl):
     tier = run.tier
-    dist = {"snap_states": {}, "hist_states": {}, "hist_ops": {}, "hist_lengths": {}}
+    sink = Sink()
+    dist = {"snap_states": {}, "hist_states": {}, "hist_ops": {}, "hist_lengths": {}, "hist_kinds": {}}
     # ---------------- corpus + (a) snapshot product
     corpus = os.path.join(core.VERIF, "corpus", "C19")
-    ccases = []
+    ccases, chists = [], []
     if os.path.isdir(corpus):
         for fn in sorted(os.listdir(corpus)):
             obj = json.load(open(os.path.join(corpus, fn)))
             if "snap_case" in obj:
                 ccases.append(obj["snap_case"])
+            if "history" in obj:
+                chists.append(obj["history"])
     cases = ccases + gen_snap_cases(writers, run.rng, tier)
     rc, out = core.run_impl("vt.harness.c19_impl", ["snaps"], src=src, input="".join(json.dumps(c) + "\n" for c in cases), timeout=3000)
     real = [json.loads(x) for x in out.splitlines() if x.startswith("{")]
     if rc != 0 or len(real) != len(cases):
         raise RuntimeError("c19_impl snaps failed rc=%s %d/%d: %s" % (rc, len(real), len(cases), out[-600:]))
-    lines = []
-    for c in cases:
-        tbl = cc.nfkd_table(names_in(c["render"]))
-        lines.append("STATUS %s %s %s %s" % (cc.enc_str(c["w"]), cc.enc_snapopt(c["render"]), cc.enc_snapopt(c["makezip"]), cc.enc_tbl(tbl)))
-    mout = model.batch(lines)
+    if model is not None:
+        lines = []
+        for c in cases:
+            tbl = cc.nfkd_table(names_in(c["render"]))
+            lines.append("STATUS %s %s %s %s" % (cc.enc_str(c["w"]), cc.enc_snapopt(c["render"]), cc.enc_snapopt(c["makezip"]), cc.enc_tbl(tbl)))
+        mout = model.batch(lines)
+    else:
+        mout = [None] * len(cases)
     dis = []
-    for c, r, m in zip(cases, real, mout):
+    for ci, (c, r, m) in enumerate(zip(cases, real, mout)):
         key = (json.dumps(c["render"], sort_keys=True), json.dumps(c["makezip"], sort_keys=True), c["w"], bool(c.get("decoys")))
         run.count(key, nontrivial=c["render"] is not None or c["makezip"] is not None)
-        rcanon = cc.canon_real_response(r, c["c"], c["w"])
-        try:
-            mcanon = cc.dec_response(m)
-        except Exception as e:
-            mcanon = "model output unreadable: %r (%s)" % (m[:100], e)
-        if rcanon != mcanon:
-            dis.append("snapshots %s: impl %r model %r" % (json.dumps(c, sort_keys=True)[:400], rcanon, mcanon))
+        if m is not None:
+            rcanon = cc.canon_real_response(r, c["c"], c["w"])
+            try:
+                mcanon = cc.dec_response(m)
+            except Exception as e:
+                mcanon = "model output unreadable: %r (%s)" % (m[:100], e)
+            if rcanon != mcanon:
+                dis.append("snapshots %s: impl %r model %r" % (json.dumps(c, sort_keys=True)[:400], rcanon, mcanon))
         want_asked = ["%s:render-%s" % (c["c"], c["w"])]
         if r["asked"][:1] != want_asked[:1] and c["w"] in writers_tbl:
             dis.append("job id asked %r, expected %r" % (r["asked"], want_asked))
@@ -362,27 +490,33 @@ def _check(run, src, model, writers, writers_tbl):
             dis.append("do_render_status asked for a foreign job id: %r" % (r["asked"],))
         if reachable_shape(c["render"]) and reachable_shape(c["makezip"]):
             # the property quantifies over histories: the oracle applies to snapshots a queue can serve
-            st = oracle(run, "snap:" + cc.canon(c)[:300], r, c["c"], c["w"], live_of_snap(c["render"]), live_of_snap(c["makezip"]), writers_tbl,
-                        {"snap_case": c})
+            shape = dict(c)
+            shape.pop("c")
+            st = oracle(sink, "snap:" + cc.canon(shape)[:300], r, c["c"], c["w"], live_of_snap(c["render"]), live_of_snap(c["makezip"]), writers_tbl,
+                        {"snap_case": c, "_seq": ("snap", ci)})
         else:
-            st = "unreachable-shape:" + (r["ret"]["state"] if "ret" in r else "crash")
+            st = "unreachable-shape:" + (r["ret"].get("state", "?") if "ret" in r else "crash")
         dist["snap_states"][st] = dist["snap_states"].get(st, 0) + 1
-        if len(run.samples) < 3 and st == "finished" and c["render"].get("result") and "suggested_filename" in c["render"]["result"]:
+        res_ = c["render"].get("result") if isinstance(c["render"], dict) else None
+        if len(run.samples) < 3 and st == "finished" and isinstance(res_, dict) and "suggested_filename" in res_:
             run.sample({"case": c, "real": r.get("ret")})
-    run.tie("do_render_status on explicit job snapshots: extracted model vs nserve.Application.do_render_status", len(cases), dis)
+    if model is not None:
+        run.tie("do_render_status on explicit job snapshots: extracted model vs nserve.Application.do_render_status", len(cases), dis)
 
     # ---------------- (b) histories on a real workq
-    nh = 150 if tier == "quick" else 6000
-    hists = [gen_history(run.rng, i, writers) for i in range(nh)]
-    for fn in (sorted(os.listdir(corpus)) if os.path.isdir(corpus) else []):
-        obj = json.load(open(os.path.join(corpus, fn)))
-        if "history" in obj:
-            h = dict(obj["history"])
-            h["id"] = len(hists)
-            hists.append(h)
+    nh = 110 if tier == "quick" else 4000
+    nl = 90 if tier == "quick" else 4000
+    hists = []
+    for h in chists:
+        hists.append(dict(h, kind="corpus"))
+    for _ in range(nh):
+        hists.append(dict(gen_history(run.rng, 0, writers), kind="random"))
+    for _ in range(nl):
+        hists.append(dict(gen_lifecycle_history(run.rng, 0, writers), kind="lifecycle"))
+    for i, h in enumerate(hists):
+        h["id"] = i
     nshard = 1 if tier == "quick" else min(16, core.NPROC)
     shards = [hists[i::nshard] for i in range(nshard)]
-    import concurrent.futures
     with concurrent.futures.ThreadPoolExecutor(nshard) as ex:
         futs = [ex.submit(core.run_impl, "vt.harness.c19_impl", ["hist"], src, "".join(json.dumps(h) + "\n" for h in sh), 3000) for sh in shards]
         outs = [f.result() for f in futs]
@@ -402,6 +536,7 @@ def _check(run, src, model, writers, writers_tbl):
     for h in hists:
         res = results[h["id"]]
         dist["hist_lengths"][len(h["ops"])] = dist["hist_lengths"].get(len(h["ops"]), 0) + 1
+        dist["hist_kinds"][h["kind"]] = dist["hist_kinds"].get(h["kind"], 0) + 1
         lines = ["RESET"]
         plan = []          # (kind, step index, key)
         for si, stp in enumerate(res["steps"]):
@@ -420,15 +555,17 @@ def _check(run, src, model, writers, writers_tbl):
                 c, w = key.split("|")
                 lines.append("STSTATUS %s %s %s" % (cc.enc_str(c), cc.enc_str(w), tbl))
                 plan.append(("status", si, key))
-        mout = model.batch(lines)[1:]
+        mout = model.batch(lines)[1:] if model is not None else [None] * len(plan)
         bad = False
         for (kind, si, key), m in zip(plan, mout):
             stp = res["steps"][si]
             if kind == "op":
-                if m.strip() != "ok":
+                if m is not None and m.strip() != "ok":
                     dis_life.append("history %d step %d: model driver said %r" % (h["id"], si, m))
                 continue
             if kind == "qinfo":
+                if m is None:
+                    continue
                 msnap, _phase = cc.dec_snapopt(m)
                 rsnap = cc.snap4(stp["snaps"][key])
                 if cc.canon(msnap) != cc.canon(rsnap) and not bad:
@@ -441,25 +578,26 @@ def _check(run, src, model, writers, writers_tbl):
             nstatus += 1
             rj, mj = stp["live"]["%s:render-%s" % (c, w)], stp["live"]["%s:makezip" % c]
             run.count((h["id"], si, key, cc.canon(rj), cc.canon(mj)), nontrivial=rj is not None or mj is not None)
-            rcanon = cc.canon_real_response(r, c, w)
-            try:
-                mcanon = cc.dec_response(m)
-            except Exception as e:
-                mcanon = "model output unreadable: %r (%s)" % (m[:100], e)
-            if rcanon != mcanon and not bad:
-                bad = True
-                dis_stat.append("history %s step %d %s: impl %r model %r" % (json.dumps(h["ops"][:si + 1]), si, key, rcanon, mcanon))
-            hh = dict(h)
-            hh["ops"] = h["ops"][:si + 1]
-            st = oracle(run, "hist:%s:%s" % (cc.canon(rj)[:200], cc.canon(mj)[:100]), r, c, w, rj, mj, writers_tbl,
-                        {"history": hh, "query": [c, w]})
+            if m is not None:
+                rcanon = cc.canon_real_response(r, c, w)
+                try:
+                    mcanon = cc.dec_response(m)
+                except Exception as e:
+                    mcanon = "model output unreadable: %r (%s)" % (m[:100], e)
+                if rcanon != mcanon and not bad:
+                    bad = True
+                    dis_stat.append("history %s step %d %s: impl %r model %r" % (json.dumps(h["ops"][:si + 1]), si, key, rcanon, mcanon))
+            hh = {"collections": h["collections"], "writers": h["writers"], "ops": h["ops"][:si + 1]}
+            st = oracle(sink, "hist:%s:%s" % (cc.canon(rj)[:200], cc.canon(mj)[:100]), r, c, w, rj, mj, writers_tbl,
+                        {"histories": [hh], "query": [c, w], "_seq": ("hist", h["id"])})
             dist["hist_states"][st] = dist["hist_states"].get(st, 0) + 1
         nsteps += len(res["steps"])
         if len(run.samples) < 6 and len(h["ops"]) >= 10:
             last = res["steps"][-1]
             run.sample({"ops": h["ops"][:12], "final_status": {k: (v.get("ret") or v) for k, v in list(last["status"].items())[:2]}})
-    run.tie("job life cycle: Coq `run` vs qs.jobs.workq behind QPlugin (qinfo of every tracked job after every op)", nsteps, dis_life)
-    run.tie("do_render_status bound to the real workq along histories: model on the model store vs real", nstatus, dis_stat)
+    if model is not None:
+        run.tie("job life cycle: Coq `run` vs qs.jobs.workq behind QPlugin (qinfo of every tracked job after every op)", nsteps, dis_life)
+        run.tie("do_render_status bound to the real workq along histories: model on the model store vs real", nstatus, dis_stat)
 
     # ---------------- (c) Unicode facts, exhaustively
     step = 97 if tier == "quick" else 1
@@ -470,73 +608,255 @@ def _check(run, src, model, writers, writers_tbl):
     u = json.loads(js[-1])
     run.obligation("NFKD introduces no control character (hypothesis nfkd_no_new_controls), all 0x110000 code points + sampled strings",
                    not u["bad_nfkd"] and not u["bad_str"], "unidata %s; violating code points: %r %r" % (u["unidata_version"], u["bad_nfkd"][:5], u["bad_str"][:5]))
-    # the model's whitespace table == str.isspace on every code point: ask the model to strip [c]
-    ws_model = [int(x) for x in model.batch(["SPACES"])[0].split()]
-    run.obligation("py_isspace (model) == str.isspace on all 0x110000 code points", ws_model == u["spaces"],
-                   "model-only %r impl-only %r" % (sorted(set(ws_model) - set(u["spaces"]))[:5], sorted(set(u["spaces"]) - set(ws_model))[:5]))
+    run.obligation("the filename generator's set of code points whose NFKD yields non-alphanumeric ASCII == the set the running interpreter computes",
+                   u["special"] == special_cps(), "%d vs %d code points" % (len(u["special"]), len(special_cps())))
+    if model is not None:
+        # the model's whitespace table == str.isspace on every code point: ask the model to strip [c]
+        ws_model = [int(x) for x in model.batch(["SPACES"])[0].split()]
+        run.obligation("py_isspace (model) == str.isspace on all 0x110000 code points", ws_model == u["spaces"],
+                       "model-only %r impl-only %r" % (sorted(set(ws_model) - set(u["spaces"]))[:5], sorted(set(u["spaces"]) - set(ws_model))[:5]))
     rt = {k: tuple(v[:2]) for k, v in u["runtime_writers"].items()}
     run.obligation("runtime nserve.name2writer == generated writer table (no entry-point writer changes it)", rt == writers_tbl and
                    all(v[2] == k for k, v in u["runtime_writers"].items()), "runtime %r generated %r" % (rt, writers_tbl))
     lines, keys = [], []
-    for cpt, cd in u["cds"]:
-        name = "a" + chr(cpt) + "b " + chr(cpt)
+    for cpt, ctx, cd in u["cds"]:
+        name = ctx.replace("@", chr(cpt))
         lines.append("CD %s %s %s" % (cc.enc_str(name), cc.enc_str("pdf"), cc.enc_tbl(cc.nfkd_table([name.strip() or "collection"]))))
-        keys.append((cpt, cd))
-    mout = model.batch(lines)
+        keys.append((cpt, ctx, cd))
+    mout = model.batch(lines) if model is not None else [None] * len(keys)
     dis = []
-    for (cpt, cd), m in zip(keys, mout):
-        run.count(("cd", cpt), nontrivial=cpt >= 128)
-        t = m.split()
-        mcd = ("EXC " + t[1]) if t[0] == "E" else cc.Reader(m[2:]).str()
-        if mcd != cd:
-            dis.append("content_disposition of 'a'+U+%04X+'b '+U+%04X: impl %r model %r" % (cpt, cpt, cd, mcd))
+    for (cpt, ctx, cd), m in zip(keys, mout):
+        run.count(("cd", cpt, ctx), nontrivial=cpt >= 128)
+        if m is not None:
+            t = m.split()
+            mcd = ("EXC " + t[1]) if t[0] == "E" else cc.Reader(m[2:]).str()
+            if mcd != cd:
+                dis.append("content_disposition of %r with @=U+%04X: impl %r model %r" % (ctx, cpt, cd, mcd))
         prob = "raised" if cd.startswith("EXC") else cc.header_problem(cd, "pdf")
         if prob:
-            run.hit("header:%s:U+%04X" % (prob.split(":")[0], cpt), "get_content_disposition('a'+U+%04X+'b '+U+%04X) = %r: %s" % (cpt, cpt, cd, prob),
-                    {"cd_name": "a" + chr(cpt) + "b " + chr(cpt)})
-    run.tie("get_content_disposition per code point (every %d-th of the non-control scalar values): model vs impl" % step, len(keys), dis)
+            sink.hit("header:%s:U+%04X" % (prob.split(":")[0], cpt), "get_content_disposition(%r with @=U+%04X) = %r: %s" % (ctx, cpt, cd, prob),
+                     {"cd_name": ctx.replace("@", chr(cpt))})
+    if model is not None:
+        run.tie("get_content_disposition per code point (every %d-th of the non-control scalar values + every code point whose NFKD has "
+                "ASCII, in 5 contexts): model vs impl" % step, len(keys), dis)
+    dist["cd_cases"] = len(keys)
+    settle_hits(run, sink, src, writers_tbl, cases, hists, nshard)
     run.coverage["exhaustive"] = False
     run.coverage["exhaustive_part"] = ("snapshot shape product (done x error x info x result x writer) is enumerated completely; NFKD/isspace facts over "
-                                       "all 0x110000 code points; histories and filenames are sampled")
+                                       "all 0x110000 code points; every code point whose NFKD contains an ASCII character goes through "
+                                       "get_content_disposition in 5 contexts; histories and longer filenames are sampled")
     run.coverage["input_distribution"] = dist
     run.coverage["unidata_version"] = u["unidata_version"]
 
 
+# ---------------------------------------------------------------------------------------------- settling hits
+
+def run_replay(src, writers_tbl, rp):
+    """Re-run one replay object on the real code in a FRESH interpreter and apply the oracle: the Sink."""
+    sink = Sink()
+    if "snap_case" in rp or "snap_seq" in rp:
+        seq = rp["snap_seq"] if "snap_seq" in rp else [rp["snap_case"]]
+        rc, out = core.run_impl("vt.harness.c19_impl", ["snaps"], src=src, input="".join(json.dumps(c) + "\n" for c in seq))
+        rs = [json.loads(x) for x in out.splitlines() if x.startswith("{")]
+        if rc != 0 or len(rs) != len(seq):
+            raise RuntimeError("c19_impl snaps failed rc=%s: %s" % (rc, out[-400:]))
+        c, r = seq[-1], rs[-1]
+        sink.observed = {"case": c, "response": r}
+        oracle(sink, "replay", r, c["c"], c["w"], live_of_snap(c["render"]), live_of_snap(c["makezip"]), writers_tbl, rp)
+    elif "history" in rp or "histories" in rp:
+        hs = rp["histories"] if "histories" in rp else [rp["history"]]
+        hs = [dict(h, id=i) for i, h in enumerate(hs)]
+        rc, out = core.run_impl("vt.harness.c19_impl", ["hist"], src=src, input="".join(json.dumps(h) + "\n" for h in hs))
+        rs = [json.loads(x) for x in out.splitlines() if x.startswith("{")]
+        if rc != 0 or len(rs) != len(hs):
+            raise RuntimeError("c19_impl hist failed rc=%s: %s" % (rc, out[-400:]))
+        if not rs[-1]["steps"]:
+            return sink
+        stp = rs[-1]["steps"][-1]
+        c, w = rp["query"]
+        key = "%s|%s" % (c, w)
+        if key not in stp["status"]:
+            return sink
+        r = stp["status"][key]
+        sink.observed = {"histories": [h["ops"] for h in hs], "live": {k: stp["live"].get(k) for k in ("%s:render-%s" % (c, w), "%s:makezip" % c)},
+                         "status": r}
+        oracle(sink, "replay", r, c, w, stp["live"]["%s:render-%s" % (c, w)], stp["live"]["%s:makezip" % c], writers_tbl, rp)
+    elif "cd_name" in rp:
+        c = {"c": COLL, "w": "rl", "makezip": None, "render": {"info": {}, "done": True, "error": None, "result": {
+            "url": "u", "size": 1, "suggested_filename": rp["cd_name"]}}}
+        rc, out = core.run_impl("vt.harness.c19_impl", ["snaps"], src=src, input=json.dumps(c) + "\n")
+        r = json.loads([x for x in out.splitlines() if x.startswith("{")][-1])
+        sink.observed = {"case": c, "response": r}
+        oracle(sink, "replay", r, COLL, "rl", live_of_snap(c["render"]), None, writers_tbl, rp)
+    return sink
+
+
+def ddmin(items, test, pool, budget):
+    """Delta debugging: a 1-minimal sublist of `items` (order kept) on which test() still holds.  The candidates of one
+    round are evaluated in parallel, the first (in a fixed order) that holds is taken: deterministic."""
+    n = 2
+    items = list(items)
+    while len(items) >= 1 and budget[0] > 0:
+        size = max(1, len(items) // n)
+        chunks = [items[i:i + size] for i in range(0, len(items), size)]
+        cands = []
+        if n > 2 or len(chunks) == 2:
+            cands += chunks                                               # reduce to one chunk
+        cands += [sum(chunks[:i] + chunks[i + 1:], []) for i in range(len(chunks))]      # or to a complement
+        cands = [c for c in cands if len(c) < len(items)]
+        seen, uniq = set(), []
+        for c in cands:
+            k = json.dumps(c, sort_keys=True)
+            if k not in seen:
+                seen.add(k)
+                uniq.append(c)
+        budget[0] -= len(uniq)
+        res = list(pool.map(test, uniq))
+        hit = next((c for c, ok in zip(uniq, res) if ok), None)
+        if hit is not None:
+            items = hit
+            n = max(2, min(n - 1, len(items)))
+            if not items:
+                break
+        elif size == 1:
+            break
+        else:
+            n = min(len(items), n * 2)
+    return items
+
+
+def settle_hits(run, sink, src, writers_tbl, cases, hists, nshard):
+    """Every clause the oracle reported on the batch run is re-run ALONE in a fresh interpreter (exactly what
+    `./check C19 --replay` does) and shrunk by delta debugging -- ops of the history, then the characters of the
+    filenames -- while the same clause keeps firing.  If it does not fire alone, the observation depends on what the
+    process did before: the replay then is the sequence of inputs of that process up to it, shrunk the same way."""
+    by_kind = {}
+    for h in sink.items:
+        by_kind.setdefault(kind_of(h["fingerprint"]), []).append(h)
+    if not by_kind:
+        return
+    pool = concurrent.futures.ThreadPoolExecutor(8)
+
+    def fires(kind, rp):
+        try:
+            s = run_replay(src, writers_tbl, rp)
+        except Exception:
+            return None
+        for it in s.items:
+            if kind_of(it["fingerprint"]) == kind:
+                return it
+        return None
+
+    try:
+        for kind in sorted(by_kind)[:5]:
+            budget = [260]
+            first = by_kind[kind][0]
+            rp = dict(first["replay"])
+            seq = rp.pop("_seq", None)
+            got = None
+            # candidates of this clause in the order found; prefer one that reproduces alone
+            for h in by_kind[kind][:4]:
+                cand = dict(h["replay"])
+                cand.pop("_seq", None)
+                budget[0] -= 1
+                got = fires(kind, cand)
+                if got:
+                    rp, seq = cand, None
+                    break
+            if not got and seq is not None:
+                # state left behind by earlier inputs of the same process: replay the process's input sequence
+                if seq[0] == "snap":
+                    full = {"snap_seq": cases[:seq[1] + 1]}
+                else:
+                    mine = [h for h in hists if h["id"] % nshard == seq[1] % nshard and h["id"] < seq[1]]
+                    full = {"histories": [{"collections": h["collections"], "writers": h["writers"], "ops": h["ops"]} for h in mine] + rp["histories"],
+                            "query": rp["query"]}
+                budget[0] -= 1
+                got = fires(kind, full)
+                if got:
+                    rp = full
+                    key = "snap_seq" if "snap_seq" in rp else "histories"
+                    last = rp[key][-1]
+                    pre = ddmin(rp[key][:-1], lambda sub: bool(fires(kind, dict(rp, **{key: sub + [last]}))), pool, budget)
+                    rp = dict(rp, **{key: pre + [last]})
+            if not got:
+                rp = dict(first["replay"])
+                rp.pop("_seq", None)
+                run.hit(kind + ":not-reproduced-alone", first["what"] + " (seen in the batch run; did not fire again when re-run in a fresh process)", rp)
+                continue
+            # shrink the ops of every history (last first), keeping the final poll
+            if "histories" in rp:
+                for hi in range(len(rp["histories"]) - 1, -1, -1):
+                    h = rp["histories"][hi]
+
+                    def with_ops(ops, hi=hi, h=h):
+                        hs = list(rp["histories"])
+                        hs[hi] = dict(h, ops=ops)
+                        return dict(rp, histories=hs)
+                    ops = ddmin(h["ops"], lambda sub: bool(sub or hi < len(rp["histories"]) - 1) and bool(fires(kind, with_ops(sub))), pool, budget)
+                    rp = with_ops(ops)
+                rp["histories"] = [h for i, h in enumerate(rp["histories"]) if h["ops"] or i == len(rp["histories"]) - 1]
+            # shrink suggested filenames
+            for path, name in name_slots(rp):
+                chars = ddmin(list(name), lambda sub: bool(fires(kind, set_slot(rp, path, "".join(sub)))), pool, budget)
+                rp = set_slot(rp, path, "".join(chars))
+            final = fires(kind, rp) or got
+            run.hit(kind + ":" + cc.canon(shape_of(rp))[:300], final["what"], rp)
+    finally:
+        pool.shutdown()
+
+
+def shape_of(rp):
+    """The replay without the (arbitrary) collection id of a snapshot case: keeps the fingerprint stable between runs."""
+    if "snap_case" in rp:
+        c = dict(rp["snap_case"])
+        c.pop("c", None)
+        c.pop("decoys", None)
+        return c
+    return rp
+
+
+def name_slots(rp):
+    """Where suggested filenames sit in a replay object: list of (path, str)."""
+    res = []
+    if "cd_name" in rp:
+        res.append((("cd_name",), rp["cd_name"]))
+    if "snap_case" in rp:
+        r = rp["snap_case"].get("render")
+        if isinstance(r, dict) and isinstance(r.get("result"), dict) and isinstance(r["result"].get("suggested_filename"), str):
+            res.append((("snap_case", "render", "result", "suggested_filename"), r["result"]["suggested_filename"]))
+    for hi, h in enumerate(rp.get("histories", [])):
+        for oi, op in enumerate(h["ops"]):
+            if op[0] == "finish" and isinstance(op[2], dict) and isinstance(op[2].get("suggested_filename"), str):
+                res.append((("histories", hi, "ops", oi, 2, "suggested_filename"), op[2]["suggested_filename"]))
+    return res
+
+
+def set_slot(rp, path, value):
+    rp = json.loads(json.dumps(rp))
+    o = rp
+    for k in path[:-1]:
+        o = o[k]
+    o[path[-1]] = value
+    return rp
+
+
 def replay(obj):
     src = core.snapshot()
-    wt = generate(src)
-    writers_tbl = {w[0]: (w[1], w[2]) for w in wt}
+    try:
+        wt = generate(src)
+        writers_tbl = {w[0]: (w[1], w[2]) for w in wt}
+    except Exception:          # changed source the translator refuses: ask the running code
+        rc, out = core.run_impl("vt.harness.c19_impl", ["writers"], src=src, timeout=300)
+        writers_tbl = {k: (v[0], v[1]) for k, v in json.loads([x for x in out.splitlines() if x.startswith("{")][-1]).items()}
     rp = obj["replay"]
-    run = core.Run("C19", "quick")
-    if "snap_case" in rp:
-        c = rp["snap_case"]
-        rc, out = core.run_impl("vt.harness.c19_impl", ["snaps"], src=src, input=json.dumps(c) + "\n")
-        print(out)
-        r = json.loads([x for x in out.splitlines() if x.startswith("{")][-1])
-        oracle(run, "replay", r, c["c"], c["w"], live_of_snap(c["render"]), live_of_snap(c["makezip"]), writers_tbl, rp)
-    elif "history" in rp:
-        h = dict(rp["history"])
-        h["id"] = 0
-        rc, out = core.run_impl("vt.harness.c19_impl", ["hist"], src=src, input=json.dumps(h) + "\n")
-        res = json.loads([x for x in out.splitlines() if x.startswith("{")][-1])
-        stp = res["steps"][-1]
-        c, w = rp["query"]
-        r = stp["status"]["%s|%s" % (c, w)]
-        print(json.dumps({"ops": h["ops"], "live": stp["live"], "status": r}, indent=1))
-        oracle(run, "replay", r, c, w, stp["live"]["%s:render-%s" % (c, w)], stp["live"]["%s:makezip" % c], writers_tbl, rp)
-    elif "cd_name" in rp:
-        rc, out = core.run_impl("vt.harness.c19_impl", ["snaps"], src=src, input=json.dumps(
-            {"c": COLL, "w": "rl", "makezip": None, "render": {"info": {}, "done": True, "error": None, "result": {
-                "url": "u", "size": 1, "suggested_filename": rp["cd_name"]}}}) + "\n")
-        print(out)
-        r = json.loads([x for x in out.splitlines() if x.startswith("{")][-1])
-        oracle(run, "replay", r, COLL, "rl", {"done": True, "error": None, "info": {}, "result": {"url": "u", "size": 1,
-               "suggested_filename": rp["cd_name"]}}, None, writers_tbl, rp)
-    else:
+    if not any(k in rp for k in ("snap_case", "snap_seq", "history", "histories", "cd_name")):
         print(json.dumps(rp, indent=1))
         return 1
-    for h in run.hits:
+    sink = run_replay(src, writers_tbl, rp)
+    print(json.dumps(getattr(sink, "observed", None), indent=1)[:6000])
+    for h in sink.items:
         print("REPRODUCED:", h["what"])
-    if not run.hits:
+    if not sink.items:
         print("not reproduced")
-    return 1 if run.hits else 0
+    return 1 if sink.items else 0
